@@ -3028,8 +3028,10 @@ class Entity(MutableMapping[str, str]):
             return
         key = key.casefold()
         if key == 'targetname':
-            _remove_copyset(self.map.by_target, self._keys.get('targetname', None), self)
-            self.map.by_target[None].add(self)
+            _remove_copyset(self.map.by_target, self['targetname'].casefold() or None, self)
+            # Only entities which are in the map are tracked.
+            if self in self.map.entities:
+                self.map.by_target[None].add(self)
 
         if key == 'classname':
             raise KeyError('Classnames cannot be deleted!')
